@@ -1,4 +1,8 @@
 import GixModel.Lemmas.C06
+import GixModel.Lemmas.C06b
+import GixModel.Lemmas.C06c
+import GixModel.Lemmas.C06d
+import GixModel.Lemmas.C06m
 import GixModel.Props.C05
 import GixModel.Props.C15
 import GixModel.Props.C21
@@ -15,16 +19,24 @@ Part A — C06's own models (Model/C06.lean), every slice / index / `expect` / c
            loose_header_never_panics, tree_entry_never_panics, tree_never_panics, from_loose_never_panics,
            ewah_decode_never_panics, ewah_bits_never_panic, ewah_never_panics,
            leb64_returns, delta_size_never_panics (+ the witnesses that their preconditions are needed)
+Part A2 — round 2, Model/C06b.lean: identity_never_panics, signature_never_panics,
+         capabilities_never_panic, fetch_line_never_panics, loose_ref_never_panics, expand_path_never_panics,
+         midx_open_never_panics (Model/C06m.lean)
+Part C — proved HERE over other properties' models that DO have panic outcomes: index_never_panics
+         (C24's State::from_bytes, all thread limits), commit_graph_open_never_panics (C14's File::new)
 Part B — re-exports, under uniform names, of the panic-freedom theorems other properties prove
          about THEIR models (no proof is duplicated; the models are imported read-only):
            C05 oid_hex / prefix_hex, C15 refname / tagname / sanitize, C21 reflog reverse iterator,
            C29 packet-line hex_prefix / streaming / reader, C32 refspec matching.
 
 Entry points that are NOT in this file have no panic-freedom theorem: either their model (of
-another property) is a total function without panic outcomes, tied line by line by the
-correspondence (commit / tag decoders and iterators C02, packed-refs C19, reflog line C21,
-config events C26, config integer / boolean C27, credentials C35, ansi-c unquoting C57), or the
-model is the trivial one and only the malformed-input stream covers them (see props/C06.json).
+another property) is a total function WITHOUT panic outcomes AND WITHOUT explicit slice / index /
+expect sites (checked file by file: C02 commit / tag decoders and iterators re-express winnow as
+recursive descent over lists; C19 packed-refs uses total `List.take`; C21's line parser, C26's event
+parser, C27's integer / boolean, C35's credentials reader, C57's unquoting are plain structural
+recursions) — a corollary `≠ panic` would be vacuous there and is deliberately NOT stated; they are
+tied line by line by the correspondence — or the model is the trivial one and only the
+malformed-input stream covers them (see props/C06.json).
 -/
 namespace GixModel.Props.C06
 open GixModel GixModel.C06
@@ -110,6 +122,57 @@ example : deltaHeaderSize [0x85, 0x01, 0xff] = .ok (133, 2) := by decide +kernel
 theorem delta_size_needs_bound : deltaHeaderSize (List.replicate 11 0x80) = .panic := by
   decide +kernel
 
+/-! ## Part A, round 2: more own models (Model/C06b.lean) -/
+
+/-- `gix_actor::signature::decode::identity` on ANY bytes: `i[..eol_idx]`, `&i[..right_delim_idx]`,
+`i[left_delim_idx..]`, `i[..left_delim_idx]` are in range and `right_delim_idx - skip_from_right`
+cannot underflow (the email itself is taken with `get`, which cannot panic). -/
+theorem identity_never_panics (i : Bytes) : identity i ≠ .panic ∧ identity i ≠ .hang :=
+  identity_total i
+
+/-- `SignatureRef::from_bytes` on ANY bytes: the identity as above, and the overflow-checked `i32`
+arithmetic `(hours * 3600 + minutes * 60) * ±1` of the time zone offset cannot overflow because
+`HH` and `MM` are at most two decimal digits. -/
+theorem signature_never_panics (i : Bytes) : signatureDecode i ≠ .panic ∧ signatureDecode i ≠ .hang :=
+  signatureDecode_total i
+
+/-- `Capabilities::from_bytes` (`&bytes[delimiter_pos + 1..]`) and `Capabilities::from_lines`
+(`version_line.split_at(find(" "))`) on ANY bytes, and the disjunction the harness observes. -/
+theorem capabilities_never_panic (d : Bytes) :
+    (capsFromBytes d ≠ .panic ∧ capsFromBytes d ≠ .hang) ∧
+    (capsFromLines d ≠ .panic ∧ capsFromLines d ≠ .hang) ∧
+    (capabilitiesRun d ≠ .panic ∧ capabilitiesRun d ≠ .hang) :=
+  ⟨capsFromBytes_total d, capsFromLines_total d, capabilitiesRun_total d⟩
+
+/-- `Acknowledgement::from_line`, `ShallowUpdate::from_line`, `WantedRef::from_line` on ANY line:
+they only use `Option`-returning string functions, their one call that could panic is
+`ObjectId::from_hex`, which does not (C05). -/
+theorem fetch_line_never_panics (l : Bytes) :
+    (ackFromLine l ≠ .panic ∧ ackFromLine l ≠ .hang) ∧
+    (shallowFromLine l ≠ .panic ∧ shallowFromLine l ≠ .hang) ∧
+    (wantedFromLine l ≠ .panic ∧ wantedFromLine l ≠ .hang) ∧
+    (fetchLineRun l ≠ .panic ∧ fetchLineRun l ≠ .hang) :=
+  ⟨ackFromLine_total l, shallowFromLine_total l, wantedFromLine_total l, fetchLineRun_total l⟩
+
+/-- `gix_ref::file::loose::Reference::try_from_path` on ANY file content: the
+`ObjectId::from_hex(hex).expect("prior validation")` holds because `hex_hash` hands it exactly 40
+lower-case hex digits (C05's characterisation of `from_hex`), and validating the target of a
+symbolic ref does not panic (C15). -/
+theorem loose_ref_never_panics (c : Bytes) : looseRef c ≠ .panic ∧ looseRef c ≠ .hang :=
+  looseRef_total c
+
+/-- `gix_url::expand_path::parse` on ANY path: `path[1..]` and `segment[1..]` are in range. -/
+theorem expand_path_never_panics (p : Bytes) : expandPathParse p ≠ .panic ∧ expandPathParse p ≠ .hang :=
+  expandPathParse_total p
+
+/-- `gix_pack::multi_index::File::try_from` (Model/C06m.lean; the table of contents is C14's
+`tocParse`) on ANY bytes and for ANY order on the pack names: the header `split_at`s, `&data[range]`
+of the PNAM and OIDF chunks, `&chunk[..pos]` / `&chunk[pos + 1..]` of the name loop, `fan[255]`, the
+`end - start` subtractions of the chunk size checks, `chunks.last().expect(..)` and the trailer slice
+`&data[highest_offset..]` never fail. -/
+theorem midx_open_never_panics (ordered : Bytes → Bytes → Bool) (data : Bytes) : midxOpen ordered data ≠ none :=
+  midxOpen_ne_none ordered data
+
 /-! ## Part B: re-exports of other properties' panic-freedom theorems -/
 
 /-- `gix_hash::ObjectId::from_hex` (C05) -/
@@ -157,6 +220,10 @@ theorem pktline_hex_prefix_never_panics (four : Bytes) (h4 : four.length = 4) :
 theorem pktline_streaming_never_panics (data : Bytes) : C29.streaming C29.consts data ≠ .panic :=
   Props.C29.streaming_never_panics _ Props.C29.extracted_consts_ok data
 
+/-- `gix_packetline::decode::all_at_once` on any bytes (C29's model; corollary of streaming) -/
+theorem pktline_all_at_once_never_panics (data : Bytes) : C29.allAtOnce C29.consts data ≠ .panic :=
+  allAtOnce_ne_panic data
+
 /-- `StreamingPeekableIter::{read_line, peek_line}` (C29): any stream, chunked in any way, any
 delimiters, any call sequence — length prefixes `fff1..ffff` included -/
 theorem pktline_reader_never_panics (cs : List Bytes) (hne : C29.NonEmptyChunks cs)
@@ -174,5 +241,24 @@ theorem refspec_match_never_panics (specs : List C32.RefSpec) (items : List C32.
     (h : ∀ s ∈ specs, ∃ valid str, C32.parseFetch valid str = .ok s) :
     (C32.matchRemotes specs items).isSome :=
   Props.C32.match_total_parsed specs items h
+
+/-! ## Part C: a panic-freedom theorem C06 proves over ANOTHER property's model -/
+
+/-- `gix_index::State::from_bytes` in C24's model (outcome type with a `panic` constructor; the
+model's slice sites are guarded branches since it follows the repaired decoder): for EVERY thread
+limit and EVERY byte string — any SHA-1 function — the outcome is a value or one of the four
+errors, never `panic`. C24 itself proves round trips only. -/
+theorem index_never_panics (sha1 : Bytes → Bytes) (threads : Nat) (data : Bytes) :
+    C24.fromBytes sha1 threads data ≠ .panic :=
+  C06C24.c24_fromBytes_ne_panic sha1 threads data
+
+/-- `gix_commitgraph::File::new` / `File::at` in C14's model (`Option` = its panic monad: every
+`assert!`, slice index and `unwrap` of header parsing, `gix_chunk::file::Index::from_bytes`, the
+chunk validations, `read_fan` and the trailer slice is a `none` branch): on ANY bytes the result is
+a file or an error, never a panic — the table of contents only hands out chunks that lie inside
+the file (`start ≤ stop ≤ len`), the fan-out chunk has exactly 1024 bytes. C14 itself proves the
+reader on well-formed graphs only. -/
+theorem commit_graph_open_never_panics (data : Bytes) : C14.File.new data ≠ none :=
+  C06C14.fileNew_ne_none data
 
 end GixModel.Props.C06
